@@ -74,6 +74,48 @@ def check_delegation(ctx, P, rule):
     return res
 
 
+def _split_alts(b, x, seen, depth=0):
+    """Backward from an operand to the first local that has two or more whole-local definitions (a value chosen by control
+    flow); None when the value is defined once all the way."""
+    p = x if ("l" in x and "p" in x) else op_place(x)
+    if p is None or depth > 24:
+        return None
+    l = p["l"]
+    if l in seen or 1 <= l <= b.argc:
+        return None
+    seen.add(l)
+    ds = [d for d in b.defs.get(l, []) if not d.node["dst"]["p"]]
+    if len(ds) >= 2:
+        return ds
+    if len(ds) == 1:
+        d = ds[0]
+        if d.kind == "assign":
+            rv = d.node["rv"]
+            nxt = [rv["op"]] if "op" in rv else ([rv["place"]] if "place" in rv else rv.get("ops", []))
+        else:
+            nxt = d.node["args"]
+        for a in nxt:
+            r = _split_alts(b, a, seen, depth + 1)
+            if r:
+                return r
+    return None
+
+
+def _def_leaves(b, d):
+    if d.kind == "call":
+        out = []
+        for a in d.node["args"]:
+            out += b.trace(a, (), None, FMT)
+        return out
+    rv = d.node["rv"]
+    if "op" in rv:
+        return b.trace(rv["op"], (), None, FMT)
+    if "place" in rv:
+        return b.trace(rv["place"], (), None, FMT)
+    return None
+
+
+
 def check_recursion_args(ctx, P, rule, deleg):
     b = P.b
     for (e, tb, f, ri, rt) in deleg:
@@ -156,6 +198,21 @@ def check_recursion_args(ctx, P, rule, deleg):
                                                     (lf.kind == "call" and lf.data[0] == P.gate[0] and lf.path == P.gate_leaf_path(fld("steps"), ELEM, fld("name"))))]
         ctx.inst(rule, "arg2 = link_dir joined with <step name>.<prefix of the delegating key id>", has_dir and pref_ok and has_name and not extra,
                  "directory argument <- link_dir: %s, KeyId::prefix(filed-under key): %s, step name: %s, other sources: %s" % (has_dir, pref_ok, has_name, extra), rt["at"])
+        # ... on every alternative: where the directory value is chosen between several definitions (if/else, match), each
+        # choice on its own must carry the step name and the key-id prefix (C15k: fall back to the parent directory)
+        alts = _split_alts(b, args[2], set())
+        if alts:
+            def is_name(lf):
+                return lf.kind == "call" and lf.data[0] == P.gate[0] and lf.path == P.gate_leaf_path(fld("steps"), ELEM, fld("name"))
+            bad_alts = []
+            for d in alts:
+                lv = _def_leaves(b, d)
+                if lv is None:
+                    continue
+                if not (any(lf.kind == "call" and callee_name(lf.data[1]) == "crypto::KeyId::prefix" for lf in lv) and any(is_name(lf) for lf in lv)):
+                    bad_alts.append("bb%d <- {%s}" % (d.bb, ", ".join(leaf_s(b, lf) for lf in lv)))
+            ctx.inst(rule, "every alternative definition of the directory argument is the dedicated sub-directory", not bad_alts,
+                     "%d alternative definition(s); without <step name>.<key-id prefix>: %s" % (len(alts), bad_alts or "none"), rt["at"])
 
 
 def check_summary(ctx, P, rule):
